@@ -21,7 +21,7 @@ MIXES = {
             'cell_to_children': 2, 'get_resolution': 1, 'get_res0_cells': 1, 'get_num_cells': 1,
             'cell_area': 1, 'compact': 2, 'uncompact': 2, 'hex_to_u64': 1, 'u64_to_hex': 1},
     'coarse': {'get_res0_cells': 2, 'cell_to_children': 5, 'uncompact': 4, 'cell_to_parent': 1, 'compact': 2,
-               'get_resolution': 1, 'cell_to_lonlat': 1, 'cell_to_boundary': 1},
+               'get_resolution': 1, 'cell_to_lonlat': 2, 'cell_to_boundary': 4},
     'hier': {'cell_to_parent': 2, 'cell_to_children': 3, 'get_resolution': 1, 'get_res0_cells': 2,
              'compact': 3, 'uncompact': 3, 'hex_to_u64': 1, 'u64_to_hex': 1, 'get_num_cells': 1, 'cell_area': 1},
 }
@@ -188,7 +188,7 @@ class Gen:
         if f == 'cell_to_parent':
             return mk(f, c) if r.random() < 0.5 else mk(f, c, r.randint(-1, max(-1, cr)))
         if f == 'cell_to_boundary':
-            return mk(f, c, {'segments': 1})
+            return mk(f, c, {'segments': 1}) if r.random() < 0.4 else mk(f, c, *self.boundary_options())
         if f == 'get_res0_cells':
             return mk(f)
         return mk(f, c)
